@@ -6,14 +6,20 @@ HIST = json.load(open(os.path.join(V, "seeded", "HISTORY.json"))) if os.path.exi
 rows = [json.loads(l) for l in open(os.path.join(V, "seeded", "RESULTS.jsonl")) if l.strip()]
 print("| seed | needs to manifest (abridged) | reported by | first obligation / case reported | history |")
 print("|---|---|---|---|---|")
-n_rep = 0
+n_rep = n_sup = 0
 for r in sorted(rows, key=lambda r: r["seed"]):
     sid = r["seed"]
     meta = json.load(open(os.path.join(V, "seeded", sid, "meta.json")))
     need = re.sub(r"\s+", " ", meta.get("needs_to_manifest", ""))[:110].replace("|", "/")
     rep = [k for k, v in r.get("checks", {}).items() if v["rc"] == 1 and v["violations"]]
+    if r.get("demo_patched") == 0 and not rep:
+        # a later "fix:" commit in /repo made this change harmless (its own demonstration passes with the patch applied): not a
+        # property-breaking change any more, kept for the record
+        n_sup += 1
+        print(f"| {sid} | {need} | (superseded: harmless on the repaired tree) | - | {HIST.get(sid, '')} |")
+        continue
     n_rep += bool(rep)
     first = next((v["first"] for k, v in r.get("checks", {}).items() if v["rc"] == 1 and v.get("first")), "")
     first = re.sub(r"^obligation ", "", first).split(": ")[0][:95].replace("|", " ")
     print(f"| {sid} | {need} | {', '.join(rep) or '**none**'} | `{first}` | {HIST.get(sid, 'reported at first evaluation')} |")
-print(f"\n{n_rep} of {len(rows)} reported.")
+print(f"\n{n_rep} of {len(rows) - n_sup} reported" + (f"; {n_sup} superseded by later repairs of /repo (their demonstrations pass with the patch applied)." if n_sup else "."))
